@@ -173,7 +173,7 @@ def parse_vspec(path):
                 # key may contain spaces ("Deref for DigitString::deref"): options are trailing k=v / flags
                 toks = rest.split()
                 opts = []
-                while toks and (("=" in toks[-1] and toks[-1].split("=")[0] in ("ret", "props")) or toks[-1] in ("external", "optional")):
+                while toks and (("=" in toks[-1] and toks[-1].split("=")[0] in ("ret", "props", "base")) or toks[-1] in ("external", "optional")):
                     opts.append(toks.pop())
                 key = " ".join(toks)
                 kv, flags = _kv(opts)
@@ -181,6 +181,8 @@ def parse_vspec(path):
                                 "external": "external" in flags, "optional": "optional" in flags}
                 cur_src["contracts"][key] = cur_contract
                 unit["fn_props"][key] = [p for p in kv.get("props", "").split(",") if p]
+                # `base=`: properties that depend on EVERY clause of this function (added to clause-level tags, not replaced by them)
+                unit.setdefault("fn_base", {})[key] = [p for p in kv.get("base", "").split(",") if p]
                 mode = ("fn", cur_contract)
             elif d == "entry":
                 mode = ("entry", cur_contract)
@@ -512,6 +514,7 @@ def gen_unit(name, canary=False, outname=None):
         f.write("".join(parts))
     meta_all["path"] = out
     meta_all["fn_props"] = fn_props
+    meta_all["fn_base"] = dict(unit.get("fn_base", {}))
     meta_all["unit"] = unit
     return meta_all
 
